@@ -231,4 +231,204 @@ theorem ch_run (f : Id) (path : List Id) (t : STree) :
     runChildHasFocus chT f path t = some (chfSpec f path t) :=
   ch_exec _ f path t (Nat.lt_succ_self _)
 
+/-! ### findPath: the in-place reversal loop -/
+
+/-- After `i` iterations of the swap loop on `orig`: the outer `i` positions at both ends hold the reversed list. -/
+def RevInv (orig : List Id) (i : Nat) (l : List Id) : Prop :=
+  l.length = orig.length ∧ ∀ j, l[j]? = if j < i ∨ orig.length - i ≤ j then orig.reverse[j]? else orig[j]?
+
+theorem revInv_init (orig : List Id) : RevInv orig 0 orig := by
+  refine ⟨rfl, fun j => ?_⟩
+  by_cases h : orig.length ≤ j
+  · have h' : orig.reverse.length ≤ j := by simpa using h
+    simp only [List.getElem?_eq_none h, List.getElem?_eq_none h', ite_self]
+  · have : ¬ (j < 0 ∨ orig.length - 0 ≤ j) := by omega
+    rw [if_neg this]
+
+theorem getElem?_set_set (l : List Id) (i j0 : Nat) (a b : Id) (hi : i < l.length) (hj : j0 < l.length) (j : Nat) :
+    ((l.set i b).set j0 a)[j]? = if j0 = j then some a else if i = j then some b else l[j]? := by
+  rw [List.getElem?_set, List.getElem?_set, List.length_set, if_pos hj, if_pos hi]
+
+theorem revInv_step (orig l : List Id) (i : Nat) (hi : i < orig.length / 2) (hinv : RevInv orig i l) :
+    ∃ p, swapIdx l i (l.length - 1 - i) = some p ∧ RevInv orig (i + 1) p := by
+  obtain ⟨hlen, hget⟩ := hinv
+  have hi' : i < orig.length := by omega
+  have hj' : orig.length - 1 - i < orig.length := by omega
+  have h1 : l[i]? = some orig[i] := by
+    rw [hget i, if_neg (by omega), List.getElem?_eq_getElem hi']
+  have h2 : l[l.length - 1 - i]? = some orig[orig.length - 1 - i] := by
+    rw [hlen, hget, if_neg (by omega), List.getElem?_eq_getElem hj']
+  refine ⟨(l.set i orig[orig.length - 1 - i]).set (l.length - 1 - i) orig[i], by simp [swapIdx, h1, h2], ?_, ?_⟩
+  · simp [hlen]
+  · intro j
+    rw [getElem?_set_set l i (l.length - 1 - i) _ _ (by omega) (by omega), hlen]
+    by_cases hj0 : orig.length - 1 - i = j
+    · rw [if_pos hj0, if_pos (by omega), ← hj0, List.getElem?_reverse hj']
+      have e : orig.length - 1 - (orig.length - 1 - i) = i := by omega
+      rw [e, List.getElem?_eq_getElem hi']
+    · rw [if_neg hj0]
+      by_cases hji : i = j
+      · rw [if_pos hji, if_pos (by omega), ← hji, List.getElem?_reverse hi', List.getElem?_eq_getElem hj']
+      · rw [if_neg hji, hget j]
+        by_cases hc : j < i ∨ orig.length - i ≤ j
+        · rw [if_pos hc, if_pos (by omega)]
+        · rw [if_neg hc, if_neg (by omega)]
+
+theorem revInv_final (orig l : List Id) (hinv : RevInv orig (orig.length / 2) l) : l = orig.reverse := by
+  obtain ⟨hlen, hget⟩ := hinv
+  apply List.ext_getElem?
+  intro j
+  rw [hget j]
+  by_cases hc : j < orig.length / 2 ∨ orig.length - orig.length / 2 ≤ j
+  · rw [if_pos hc]
+  · rw [if_neg hc]
+    have hj : j < orig.length := by omega
+    rw [List.getElem?_reverse hj]
+    have : orig.length - 1 - j = j := by omega
+    rw [this]
+
+def fpCond : Expr := (.bin "<" (.var "v1") (.bin "/" (.arg (.call (.var "len")) (.var "r.path")) (.int 2)))
+def fpBody : Stmt :=
+      (.seq (.atom ⟨1, .assign, (.pair (.index (.var "r.path") (.var "v1")) (.index (.var "r.path") (.bin "-" (.bin "-" (.arg (.call (.var "len")) (.var "r.path")) (.int 1)) (.var "v1")))), (.pair (.index (.var "r.path") (.bin "-" (.bin "-" (.arg (.call (.var "len")) (.var "r.path")) (.int 1)) (.var "v1"))) (.index (.var "r.path") (.var "v1")))⟩)
+      .skip)
+def fpPost : Stmt := (.seq (.atom ⟨2, .addAssign, (.var "v1"), (.int 1)⟩) .skip)
+
+def fpT : Stmt :=
+  (.seq (.atom ⟨0, .assign, (.var "r.path"), (.lit "[]Widget{}")⟩)
+  (.seq (.atom ⟨0, .define, (.var "v0"), (.arg (.call (.var "r.childHasFocus")) (.var "r.lastFrame"))⟩)
+  (.seq (.ite (.bin "||" (.bin "!=" (.var "r.root") (.var "r.lastFrame.Widget")) (.bin "==" (.arg (.call (.var "len")) (.var "r.path")) (.int 0)))
+      (.seq (.atom ⟨1, .assign, (.var "r.path"), (.arg (.arg (.call (.var "append")) (.var "r.path")) (.var "r.root"))⟩)
+      .skip)
+      .skip)
+  (.seq (.seq (.atom ⟨1, .define, (.var "v1"), (.int 0)⟩)
+    .skip)
+  (.seq (.loop fpCond fpBody fpPost)
+  (.seq (.atom ⟨0, .returnS, (.var "v0"), .none⟩)
+  .skip))))))
+
+theorem parse_fp : parseBody VxfwBodyExpected.findPath = fpT := by decide +kernel
+
+theorem fp_swap_is : isSwap "v1" (.pair (.index (.var "r.path") (.var "v1")) (.index (.var "r.path") (.bin "-" (.bin "-" (.arg (.call (.var "len")) (.var "r.path")) (.int 1)) (.var "v1"))))
+    (.pair (.index (.var "r.path") (.bin "-" (.bin "-" (.arg (.call (.var "len")) (.var "r.path")) (.int 1)) (.var "v1"))) (.index (.var "r.path") (.var "v1"))) = true := by decide
+
+/-- The reversal loop, from iteration `i` on. -/
+theorem fp_loop (env : TEnv) (orig : List Id) : ∀ (k i : Nat) (m : TM),
+    VxfwInterpTree.find m.ints "v1" = some (i : Int) → RevInv orig i m.path → i ≤ orig.length / 2 → orig.length / 2 - i + 1 ≤ k →
+    ∃ m', tloop (fun m => tevBool env m fpCond) (texec env fpBody) (texec env fpPost) k m = some (m', .norm) ∧
+      m'.path = orig.reverse ∧ m'.flags = m.flags ∧ m'.hitl = m.hitl := by
+  intro k
+  induction k with
+  | zero => intro i m _ _ _ hk; omega
+  | succ k ih =>
+    intro i m hv hinv hle hk
+    have hlen : m.path.length = orig.length := hinv.1
+    rw [tloop]
+    have hc : tevBool env m fpCond = some (decide (i < orig.length / 2)) := by
+      simp [fpCond, tevBool, hv, hlen]
+      omega
+    simp only [hc]
+    by_cases hlt : i < orig.length / 2
+    · simp only [hlt, decide_true]
+      obtain ⟨p, hp, hinv'⟩ := revInv_step orig m.path i hlt hinv
+      have hb : texec env fpBody m = some ({ m with path := p }, .norm) := by
+        have hneg : ¬ ((i : Int) < 0) := by omega
+        simp [fpBody, texec, tatom, fp_swap_is, hv, hneg, hp]
+      have hpo : texec env fpPost { m with path := p } =
+          some ({ m with path := p, ints := ("v1", ((i + 1 : Nat) : Int)) :: m.ints }, .norm) := by
+        simp [fpPost, texec, tatom, hv]
+      rw [hb]
+      simp only [hpo]
+      obtain ⟨m', hm, hp', hf', hh'⟩ := ih (i + 1) { m with path := p, ints := ("v1", ((i + 1 : Nat) : Int)) :: m.ints }
+        (by simp [VxfwInterpTree.find]) hinv' (by omega) (by omega)
+      exact ⟨m', hm, hp', hf', hh'⟩
+    · have hi : i = orig.length / 2 := by omega
+      simp only [hlt, decide_false]
+      subst hi
+      exact ⟨m, rfl, revInv_final orig m.path hinv, rfl, rfl⟩
+
+
+def fpTail : Stmt :=
+  (.seq (.loop fpCond fpBody fpPost)
+  (.seq (.atom ⟨0, .returnS, (.var "v0"), .none⟩)
+  .skip))
+
+def fpPreK (K : Stmt) : Stmt :=
+  (.seq (.atom ⟨0, .assign, (.var "r.path"), (.lit "[]Widget{}")⟩)
+  (.seq (.atom ⟨0, .define, (.var "v0"), (.arg (.call (.var "r.childHasFocus")) (.var "r.lastFrame"))⟩)
+  (.seq (.ite (.bin "||" (.bin "!=" (.var "r.root") (.var "r.lastFrame.Widget")) (.bin "==" (.arg (.call (.var "len")) (.var "r.path")) (.int 0)))
+      (.seq (.atom ⟨1, .assign, (.var "r.path"), (.arg (.arg (.call (.var "append")) (.var "r.path")) (.var "r.root"))⟩)
+      .skip)
+      .skip)
+  (.seq (.seq (.atom ⟨1, .define, (.var "v1"), (.int 0)⟩)
+    .skip)
+  K))))
+
+theorem fpT_eq : fpT = fpPreK fpTail := rfl
+
+theorem texec_seq (env : TEnv) (a b : Stmt) (m : TM) : texec env (.seq a b) m = (match texec env a m with
+    | some (m', .norm) => texec env b m'
+    | r => r) := by
+  simp only [texec]
+  rfl
+
+/-- The path before the reversal loop. -/
+def prePath (s : St) : List Id :=
+  if !frameRootIsRoot s || ((frameHasFocus s).getD []).isEmpty then (frameHasFocus s).getD [] ++ [s.root] else (frameHasFocus s).getD []
+
+theorem fp_pre (env : TEnv) (s : St) (K : Stmt)
+    (hsel : ∀ t, s.fhFrame = some t → env.selfC s.focused [] t = some (chfSpec s.focused [] t)) :
+    ∃ m1, texec env (fpPreK K) { focused := s.focused, root := s.root, frame := s.fhFrame } = texec env K m1 ∧
+      m1.path = prePath s ∧ VxfwInterpTree.find m1.ints "v1" = some ((0 : Nat) : Int) ∧
+      VxfwInterpTree.find m1.flags "v0" = some (frameHasFocus s).isSome ∧ m1.hitl = [] := by
+  cases hfr : s.fhFrame with
+  | none =>
+    refine ⟨{ focused := s.focused, root := s.root, frame := none, path := [] ++ [s.root], flags := [("v0", false)], ints := [("v1", 0)] }, ?_, ?_, ?_, ?_, rfl⟩
+    · ts [fpPreK]
+    · simp [prePath, frameHasFocus, frameRootIsRoot, hfr]
+    · simp [VxfwInterpTree.find]
+    · simp [VxfwInterpTree.find, frameHasFocus, hfr]
+  | some t =>
+    have hs := hsel t hfr
+    simp only [chfSpec, List.nil_append] at hs
+    refine ⟨{ focused := s.focused, root := s.root, frame := some t, path := prePath s, flags := [("v0", (childHasFocus s.focused t).isSome)], ints := [("v1", 0)] }, ?_, rfl, ?_, ?_, rfl⟩
+    · have hiso : ((childHasFocus s.focused t).getD []).isEmpty = decide ((childHasFocus s.focused t).getD [] = []) := by
+        cases (childHasFocus s.focused t).getD [] <;> simp
+      have hpp : prePath s = if (!decide (s.root = t.id) || decide ((childHasFocus s.focused t).getD [] = [])) = true
+          then (childHasFocus s.focused t).getD [] ++ [s.root] else (childHasFocus s.focused t).getD [] := by
+        simp only [prePath, frameHasFocus, frameRootIsRoot, hfr, hiso]
+      cases hc : (!decide (s.root = t.id) || decide ((childHasFocus s.focused t).getD [] = []))
+      · rw [hc] at hpp
+        ts [fpPreK, hs, hc, hpp]
+      · rw [hc] at hpp
+        ts [fpPreK, hs, hc, hpp]
+    · simp [VxfwInterpTree.find]
+    · simp [VxfwInterpTree.find, frameHasFocus, hfr]
+
+theorem fp_exec (s : St) :
+    runFindPath fpT chT s.focused s.root s.fhFrame = some ((findPath s).1.path, (findPath s).2) := by
+  unfold runFindPath
+  simp only []
+  generalize henv : (⟨fun _ _ _ => none, fun _ _ _ _ => none,
+    runChildHasFocusD chT ((match s.fhFrame with | none => 0 | some t => treeDepth t) + 1)⟩ : TEnv) = env
+  have hsel : ∀ t, s.fhFrame = some t → env.selfC s.focused [] t = some (chfSpec s.focused [] t) := by
+    intro t ht
+    rw [← henv, ht]
+    exact ch_exec _ s.focused [] t (Nat.lt_succ_self _)
+  obtain ⟨m1, hm1, hp1, hi1, hf1, hh1⟩ := fp_pre env s fpTail hsel
+  obtain ⟨m2, hm2, hp2, hf2, hh2⟩ := fp_loop env (prePath s) (m1.path.length + 1) 0 m1 hi1 (by rw [hp1]; exact revInv_init _) (Nat.zero_le _)
+    (by rw [hp1]; omega)
+  have hfound : (findPath s).1.path = (prePath s).reverse := rfl
+  have hok : (findPath s).2 = (frameHasFocus s).isSome := rfl
+  rw [hfound, hok, fpT_eq, hm1]
+  unfold fpTail
+  have hloop : texec env (.loop fpCond fpBody fpPost) m1 =
+      tloop (fun m => tevBool env m fpCond) (texec env fpBody) (texec env fpPost) (m1.path.length + 1) m1 := by
+    simp only [texec]
+  rw [texec_seq, hloop, hm2]
+  have hret : texec env (.seq (.atom ⟨0, .returnS, (.var "v0"), .none⟩) .skip) m2 = some (m2, .retB (frameHasFocus s).isSome) := by
+    have hn : VxfwInterpTree.find m2.hitl "v0" = none := by rw [hh2, hh1]; rfl
+    have hfl : VxfwInterpTree.find m2.flags "v0" = some (frameHasFocus s).isSome := by rw [hf2]; exact hf1
+    simp [texec, tatom, hn, hfl]
+  simp only [hret, hp2]
+
 end VaxisModel.Lemmas.VxfwBodyTree
